@@ -25,7 +25,7 @@ ASSUMPTIONS = ["where no valid argument exists in the state (truncate of an empt
                "snapshot compares file content, kind and permission bits; mtime is ignored"]
 EXHAUSTIVE = "the full kind x state x metadata x how x mutator matrix (no preceding history)"
 KINDS = {'Array': ['empty', 'nonempty', 'empty2d', 'zerotail'], 'Ragged': ['nosub', 'emptyvalues', 'nonempty']}
-HOWS = ['held-open-while-twin-is-opened-r+', 'r+-then-abandoned-iterator-then-r', 'via-copy', 'default-open', 'create-r', 'assign', 'r-r+-r', 'after-r+block', 'reassign-r-after-metadata-r+', 'after-nested-mixed-blocks', 'switched-inside-open-context']
+HOWS = ['held-open-while-twin-is-opened-r+', 'r+-then-abandoned-iterator-then-r', 'via-copy', 'default-open', 'create-r', 'assign', 'r-r+-r', 'after-r+block', 'reassign-r-after-metadata-r+', 'after-nested-mixed-blocks', 'switched-inside-open-context', 'switch-to-r+-attempted-inside-own-r-block']
 MUTS = {'Array': ['setitem', 'append', 'iterappend', 'truncate', 'delete', 'md.update', 'md.setitem', 'md.pop', 'md.popdefault', 'md.popitem', 'md.del'],
         'Ragged': ['append', 'append0', 'iterappend', 'truncate', 'delete', 'md.update', 'md.setitem', 'md.pop', 'md.popdefault', 'md.popitem', 'md.del']}
 MUST_HIT = [f'how:{h}' for h in HOWS] + [f'Array:{s}' for s in KINDS['Array']] + [f'Ragged:{s}' for s in KINDS['Ragged']] + \
@@ -215,6 +215,22 @@ def execute(ctx, spec):
                     if not (mut in ('append', 'append0', 'iterappend') or mut.startswith('md.')):
                         keepopen.__exit__(None, None, None)
                         keepopen = None
+                elif how == 'switch-to-r+-attempted-inside-own-r-block':
+                    # a read-only handle holds its arrays open (read-only) and is asked to become 'r+' there.  Whether that request is
+                    # honoured or refused is the library's business; if the handle says 'r' afterwards (refused, or set back by the
+                    # caller when it was honoured) every mutator has to be refused again - no half-applied switch
+                    h = _open(kind, path)
+                    keepopen = h.open_array() if kind == 'Array' else h.open_arrays()
+                    keepopen.__enter__()
+                    try:
+                        h.accessmode = 'r+'
+                    except Exception:
+                        out.cls('switch-inside-r-block:refused')
+                    if h.accessmode != 'r':
+                        h.accessmode = 'r'
+                    if not (mut in ('append', 'append0', 'iterappend') or mut.startswith('md.')):
+                        keepopen.__exit__(None, None, None)
+                        keepopen = None
                 else:
                     h = _open(kind, path)
                     h.accessmode = 'r+'
@@ -245,7 +261,7 @@ def execute(ctx, spec):
                 pass          # (the array may be gone if the mutator was a delete that wrongly went through)
             keepopen = None
             after = snapshot(path)
-        if how == 'switched-inside-open-context' and keepopen is not None:
+        if how in ('switched-inside-open-context', 'switch-to-r+-attempted-inside-own-r-block') and keepopen is not None:
             keepopen.__exit__(None, None, None)
             after = snapshot(path)
         if not raised:
